@@ -240,8 +240,72 @@ def evaluate(tag, lines, jobs=12):
                 outs.add(oc.project_execution(p, ex[0]))
             impl[n].update({"outcomes": impl[n]["outcomes"] | outs, "complete": ok, "via": "replay",
                             "executions": len(leaves)})
+    # `setval` is a plain write to the data a held guard protects — no call into the runtime, hence not a visible operation
+    # and not separable from the acquisition before it; its result (`ok`) carries nothing: dropped from every outcome
+    for n in names:
+        inv = invisible_pcs(progs[n])
+        if not inv:
+            continue
+        impl[n]["outcomes"] = {strip_pcs(o, inv) for o in impl[n]["outcomes"]}
+        model[n] = ({strip_pcs(o, inv) for o in model[n][0]}, model[n][1])
+        ref[n] = ({strip_pcs(o, inv) for o in ref[n][0]}, ref[n][1])
+        lenient[n] = ({strip_pcs(o, inv) for o in lenient[n][0]}, lenient[n][1])
     return {"names": names, "progs": progs, "impl": impl, "model": model, "ref": ref, "lenient": lenient,
             "raw": raw, "crashed": crashed}
+
+
+def invisible_pcs(pl):
+    """{body: {pc of every `setval`}}"""
+    inv, cur, pc = {}, None, 0
+    for l in pl:
+        t = l.split()
+        if l.startswith("task "):
+            cur, pc = int(t[1]), 0
+        elif l.startswith("  ") and cur is not None:
+            if t[0] == "setval":
+                inv.setdefault(cur, set()).add(pc)
+            pc += 1
+        elif l.strip() == "end":
+            cur = None
+    return inv
+
+
+def strip_pcs(outcome, inv):
+    body, sep, term = outcome.rpartition(";E:")
+    if not sep:
+        return outcome
+    tasks = []
+    for part in body.split(";"):
+        k, colon, rest = part.partition(":")
+        if not colon or not k.isdigit():
+            tasks.append(part); continue
+        items = [it for it in (rest.split(",") if rest else []) if not (it.partition("=")[0].isdigit() and int(it.partition("=")[0]) in inv.get(int(k), ()))]
+        tasks.append(f"{k}:" + ",".join(items))
+    return ";".join(tasks) + ";E:" + term
+
+
+def reentrant_without_panic(pl):
+    """the program acquires a lock it already holds (the runtime diagnoses that with a panic raised BEFORE the operation's
+    scheduling point) and has no `panic` of its own"""
+    held, cur, found = set(), None, False
+    for l in pl:
+        t = l.split()
+        if l.startswith("task "):
+            cur, held = int(t[1]), set()
+        elif l.startswith("  ") and cur is not None and len(t) > 1:
+            if t[0] == "panic":
+                return False
+            if t[0] in ("lock", "read", "write"):
+                if t[1] in held:
+                    found = True
+                held.add(t[1])
+            elif t[0] in ("trylock", "tryread", "trywrite"):
+                held.add(t[1])
+            elif t[0] in ("unlock", "unread", "unwrite"):
+                held.discard(t[1])
+        elif l.startswith("  ") and t and t[0] == "panic":
+            return False
+    return found
 
 
 NOOP_RESULTS = {"noguard", "nohandle", "norecv", "nosender", "noscope", "busy"}
@@ -319,7 +383,9 @@ def oracles(ev, only=None):
                             f"runtime's complete tree ({im['executions']} executions, {im['via']}) does; nearest produced: [{near}]",
                             {"kind": "program", "program": pl, "missing_outcome": o, "nearest_produced": near,
                              "impl_outcomes": sorted(im["outcomes"]), "ref_outcomes": sorted(rf)},
-                            "C02:missing-outcome:" + shape, prog_size(pl), "missing:" + root))
+                            *(("C02:missing-switch-before:reentrant-diagnosis", prog_size(pl), "missing:reentrant-diagnosis")
+                              if o.endswith(";E:panic") and reentrant_without_panic(pl) else
+                              ("C02:missing-outcome:" + shape, prog_size(pl), "missing:" + root))))
         if unsound:
             cnt["programs_unsound"] += 1
             sigs = {}
